@@ -559,6 +559,13 @@ impl Prioritize {
                     self.reclaim_frame(buffer, store, dst);
                 }
                 None => {
+                    // `pop_frame` may have done nothing but discard a stream
+                    // that was reset while it waited in `pending_open`; the
+                    // slot it gave back admits the next waiting stream.
+                    if counts.can_inc_num_send_streams() && !self.pending_open.is_empty() {
+                        continue;
+                    }
+
                     return Ok(BufferStatus::Complete);
                 }
             }
